@@ -113,6 +113,8 @@ class ExcelInPython:
     def _compare(self, operator: str, left_operand: str | int | float | datetime.date | datetime.datetime,
                           right_operand: str | int | float | datetime.date | datetime.datetime) -> bool:
         try:
+            if isinstance(left_operand, float) or isinstance(right_operand, float):
+                raise ValueError('fractional operands are compared as float')
             return self._by_operator(operator, int(left_operand), int(right_operand))
         except (ValueError, TypeError):
             try:
